@@ -183,3 +183,30 @@ impl Rec {
         self.data.len() + 4
     }
 }
+
+
+// ---- split always yields at least one piece; a second piece is not guaranteed
+pub fn good_split_first(s: &str) -> usize {
+    let parts = s.split(|c| c == '=').collect::<Vec<&str>>();
+    parts[0].len()
+}
+pub fn bad_split_second(s: &str) -> usize {
+    let parts = s.split(|c| c == '=').collect::<Vec<&str>>();
+    parts[1].len()
+}
+
+// ---- (x & MASK) == MASK implies x >= MASK; (x & MASK) != 0 does not
+pub fn good_masked_guard(data: &[u8; 256], x: u8) -> u8 {
+    if x & 0xC0 == 0xC0 {
+        data[(x - 0xC0) as usize]
+    } else {
+        0
+    }
+}
+pub fn bad_masked_guard(data: &[u8; 256], x: u8) -> u8 {
+    if x & 0xC0 != 0 {
+        data[(x - 0xC0) as usize]
+    } else {
+        0
+    }
+}
